@@ -110,12 +110,23 @@ fn ints(b: &[u8]) -> Vec<u64> {
     b.iter().map(|x| *x as u64).collect()
 }
 
+/// `wher` = "<panic file>|<message head>@<innermost parquet_variant function>" (empty unless the outcome is a panic)
+fn site(wher: &str) -> (String, String, String) {
+    let (wfile, rest) = wher.split_once('|').unwrap_or(("", wher));
+    let (msg, func) = rest.split_once('@').unwrap_or((rest, ""));
+    (wfile.to_string(), msg.to_string(), crate::alloc::fn_module(func))
+}
+
 pub fn value_event(src: &str, meta: &[u8], value: &[u8], outcome: &str, wher: &str, tok: &str) -> Value {
-    json!({"ev": "variant", "src": src, "meta": ints(meta), "value": ints(value), "outcome": outcome, "where": wher, "tok": tok})
+    let (wfile, msg, fmod) = site(wher);
+    json!({"ev": "variant", "fmt": "variant", "api": "Variant::try_new", "src": src, "meta": ints(meta), "value": ints(value), "outcome": outcome,
+           "where": wher, "wfile": wfile, "msg": msg, "fmod": fmod, "tok": tok})
 }
 
 pub fn meta_event(src: &str, meta: &[u8], outcome: &str, wher: &str, names: &[String]) -> Value {
-    json!({"ev": "vmeta", "src": src, "meta": ints(meta), "outcome": outcome, "where": wher, "names": names})
+    let (wfile, msg, fmod) = site(wher);
+    json!({"ev": "vmeta", "fmt": "variant", "api": "VariantMetadata::try_new", "src": src, "meta": ints(meta), "outcome": outcome,
+           "where": wher, "wfile": wfile, "msg": msg, "fmod": fmod, "names": names})
 }
 
 /// valid sample variants (metadata, value) written by the crate's own builder
